@@ -11,7 +11,12 @@ SPEC = {
             "positional getters with and without default (exhaustive for every spelling under each format it is a documented spelling of; the same texts under the other formats, e.g. 0x1f as DECIMAL or 10 as HEX: every n in thorough, |n|<=1024 and every 8th n in quick); windows +-(2^k+d) for k=7..66, 2^64-2^k+d, 10^k+d, "
             "numerals beyond 2^64 and 2^128, seeded random magnitudes; ~70 non-numeral texts; absent arguments; "
             "token lists: all 111111 lists of <=5 tokens over {a,-,--,-x,-xy,--k,--k=v,--k=,--=v,\"\"} x every subset of read "
-            "groups before assert_none_unused (exhaustive); get_multi over repeated numeric options; floats: literal grammar "
+            "groups before assert_none_unused (exhaustive), half of them with get_multi on an absent name first and single getters for it afterwards; "
+            "getter histories on one object: 5 command lines x 84 getter calls (13 per option name n,s,f,x,r incl. bool/string/int/float/default/"
+            "get_multi, 6 per position 0,1,5, assert_none_unused): every call alone, every ordered pair, every ordered triple over the calls "
+            "sharing a target, seeded cross-target triples - each call must yield what the statement gives for an absent target / what it "
+            "yields first on a fresh object for a present one, assert_none_unused judged by a read model; "
+            "get_multi over repeated numeric options; floats: literal grammar "
             "tables + seeded long decimals vs CPython float(); one-string constructor: all strings <=5 (quick) / <=6 (thorough) "
             "over {a,-,=,' ',\",',\\} inside the unambiguous shell subset + seeded structured lines vs shlex.split. "
             "distinct_nontrivial = distinct (part, type, format, outcome class) / (list length, #positionals, #names) / "
@@ -31,6 +36,8 @@ SPEC = {
         "absent:int:*", "absent:float:*", "absent:string-bool-multi",
         "tokens:len5:pos5:names0", "tokens:len5:pos0:names4", "tokens:len0:pos0:names0", "tokens:maxgroups*",
         "multi:*:fit", "multi:*:unfit", "typed-used:*",
+        "history:pairs-all-ordered", "history:triples-same-target", "history:world0:name:absent", "history:world0:name:present",
+        "history:world0:position:absent", "history:world1:name:absent", "history:world4:name:present",
         "float:double:exp:*", "float:float:frac:neg", "float:double:garbage", "float:double:subnormal:*", "float:double:overflow-inf:*",
         "cmdline:dq*", "cmdline:sq*", "cmdline:bs*", "cmdline:bare:*", "cmdline:*:tab:*",
     ],
